@@ -5,7 +5,8 @@ Import ListNotations.
 Local Open Scope N_scope.
 
 Definition M64 : N := 18446744073709551616.
-Definition w64 (x : N) : N := x mod M64.
+Definition MASK64 : N := 18446744073709551615.
+Definition w64 (x : N) : N := N.land x MASK64.
 Definition P1 : N := 11400714785074694791.
 Definition P2 : N := 14029467366897019727.
 Definition P3 : N := 1609587929392839161.
